@@ -118,8 +118,11 @@ CLAIMS["C16"] = (
     "Solver verdict that every filter kind in every group is encoded as the Master Server Query Protocol prescribes "
     "(boolean payloads symbolic), that a later filter of a kind replaces the earlier, that each filter lands in exactly its "
     "group (parsed back with a grammar parser), that the request is '1' region ip:port NUL filters for all regions, and that "
-    "paging returns all addresses without the terminator and seeds follow-up requests with the last address.",
-    "Trusted: hooks H3-H5, reference encoder. Outside: symbolic numeric/string payloads, > 2 pages.",
+    "paging (1-3 pages, incl. consecutive pages ending on the same host with different ports, and a page that makes no "
+    "progress) returns all addresses without the terminator, seeds each follow-up request with the previous last address "
+    "and stops at the terminator.",
+    "Trusted: hooks H3-H5, reference encoder, plain-arithmetic stub for <Ipv4Addr as Display>::fmt in the paging harnesses "
+    "(validated natively). Outside: symbolic numeric/string payloads and ports, > 3 pages, >= 10 filters in one group.",
     "DESIGN.md §4 C16")
 
 CLAIMS["C04"] = (
